@@ -10,10 +10,10 @@ The static evaluator is property C08's subject; here it is a PARAMETER `truthy :
 (`truthy r = true` iff `evaluate(r).is_truthy().unwrap_or_default()`); the driver instantiates it
 with the verdicts of the real `Evaluator` on the sub-expressions of the program.
 
-`elseif` branches are folded LEFT TO RIGHT over the else-result, so the FIRST `elseif` ends up
-innermost: with two or more `elseif` branches the conditions are tested in reverse order
-(`if a then 1 elseif b then 2 elseif c then 3 else 4` ⇒ `a and 1 or (c and 3 or (b and 2 or 4))`).
-Modelled as is.
+The `elseif` branches are folded from the LAST one over the else-result (`.rev().fold(…)`), so the
+first `elseif` is the outermost test: `if a then 1 elseif b then 2 elseif c then 3 else 4` ⇒
+`a and 1 or (b and 2 or (c and 3 or 4))`. (Before the fix of finding F25 the fold ran left to right
+and tested the `elseif` conditions in reverse order.)
 -/
 namespace DarkluaModel.Rules.RemoveIfExpression
 open DarkluaModel.Rules
@@ -28,10 +28,10 @@ def convertIfBranch (c r e : Expr) : Expr :=
   if truthy r then .bin .or (.bin .and c r) e
   else .index (.paren (.bin .or (.bin .and c (wrapInTable r)) (wrapInTable e))) numOne
 
-/-- the `fold` over `iter_branches()` -/
+/-- the `fold` over the reversed `iter_branches()`: a right fold -/
 def foldBranches : List (Expr × Expr) → Expr → Expr
   | [], acc => acc
-  | (c, r) :: rest, acc => foldBranches rest (convertIfBranch truthy c r acc)
+  | (c, r) :: rest, acc => convertIfBranch truthy c r (foldBranches rest acc)
 
 /-- `process_expression` -/
 def processExpression : Expr → Expr
